@@ -186,6 +186,8 @@ class MatchScenario(NetScenario):
                 out.append(("senderr:" + s, 1))
         if any(r.obj is not None for r in st.reqs):
             out.append(("shutdown", 1))
+            # ... with one more request submitted by another task while the shutdown is under way
+            out += [("shutdown/req%d" % j, 1) for j in (1, 2, 3)]
         return out
 
     def apply_fault(self, st, label):
@@ -263,9 +265,19 @@ class MatchScenario(NetScenario):
                                                    "tokenmanager.py:dispatch_error", {}, key="other-remote"))
         elif kind == "senderr":
             st.world.send_faults[("cli", SRV[parts[1]])] = errno.ENETUNREACH
-        elif kind == "shutdown":
+        elif kind.startswith("shutdown"):
             st.shut = True
             st.shutdown_task = w.loop.create_task(st.cli.ctx.shutdown())
+            if "/req" in kind:
+                for i in range(int(kind.split("/req")[1])):
+                    if w.loop._ready:
+                        w.loop._run_once()
+                late = Req("late", "CON", "S1")
+                st.reqs.append(late)
+                try:
+                    self.issue(st, late)
+                except error.Error:
+                    st.reqs.remove(late)      # refused on the spot
             w.loop.settle()
             for r in st.reqs:
                 if r.obj is not None and not r.obj.response.done():
